@@ -6,7 +6,7 @@
    This file contains only statements closed by `exact`, their assumptions and non-vacuity examples.
    Generated once by tools/genprops.py from the proved lemmas (statements restated verbatim). *)
 From Coq Require Import List NArith ZArith Bool Lia Sorting.Sorted Sorting.Permutation.
-From Viv Require Import Base.Assoc Base.Tree Model.Paths Model.Steps Proofs.Steps_proofs.
+From Viv Require Import Base.Assoc Base.Tree Model.Paths Model.Steps Proofs.Steps_proofs Proofs.StepsPerm_proofs.
 Import ListNotations.
 
 (* every graph step occurs in exactly one generation *)
@@ -199,6 +199,42 @@ Theorem C05_phase_order :
          layer_index (node_of b) ls = Some j -> i < j -> log = pre ++ b :: post -> ~ In a post.
 Proof. exact @phase_order. Qed.
 Print Assumptions C05_phase_order.
+
+(* sorting is canonical: two listings of the same distinct steps sort to the same layer *)
+Theorem C05_nsort_canonical :
+  forall l l' : list node, NoDup l -> Permutation l l' -> nsort l = nsort l'.
+Proof. exact @nsort_canonical. Qed.
+Print Assumptions C05_nsort_canonical.
+
+(* the generations of permuted listings are permutations of each other, level by level, and fail together *)
+Theorem C05_generations_perm :
+  forall g g' : sgraph,
+         NoDup (gnodes g) ->
+         Permutation (gnodes g) (gnodes g') ->
+         (forall e : node * node, In e (gedges g) <-> In e (gedges g')) ->
+         match generations g with
+         | Some gs =>
+             match generations g' with
+             | Some gs' => Forall2 (Permutation (A:=node)) gs gs'
+             | None => False
+             end
+         | None => match generations g' with
+                   | Some _ => False
+                   | None => True
+                   end
+         end.
+Proof. exact @generations_perm. Qed.
+Print Assumptions C05_generations_perm.
+
+(* the execution layers do not depend on the order in which steps and dependencies were added *)
+Theorem C05_layers_listing_order_moot :
+  forall g g' : sgraph,
+         seq g = seq g' ->
+         NoDup (gnodes g) ->
+         Permutation (gnodes g) (gnodes g') ->
+         (forall e : node * node, In e (gedges g) <-> In e (gedges g')) -> layers g = layers g'.
+Proof. exact @layers_listing_order_moot. Qed.
+Print Assumptions C05_layers_listing_order_moot.
 
 
 (* ---- non-vacuity: a concrete flow ---- *)
